@@ -1,0 +1,25 @@
+//go:build verif
+
+package base
+
+// Test-only seam for the C10 runtime monitor (/verif/harness/c10). Inert
+// without the `verif` build tag. Read-only probe, no logic.
+
+// VerifC10MapOrder returns the names currently held in the store's file map,
+// most recently accessed first. ok is false when s is not a local file store.
+func VerifC10MapOrder(s FileStore) (names []string, ok bool) {
+	ls, ok := s.(*localFileStore)
+	if !ok {
+		return nil, false
+	}
+	fm, ok := ls.fileMap.(*lruFileMap)
+	if !ok {
+		return nil, false
+	}
+	fm.Lock()
+	defer fm.Unlock()
+	for e := fm.queue.Front(); e != nil; e = e.Next() {
+		names = append(names, e.Value.(*fileEntryWithAccessTime).fe.GetName())
+	}
+	return names, true
+}
